@@ -10,6 +10,7 @@
 """
 XPath 2.0 implementation - part 4 (XSD constructors)
 """
+from copy import copy
 import decimal
 from typing import cast, NoReturn
 
@@ -285,7 +286,7 @@ def evaluate__boolean_type_and_function(self: XPathConstructor, context: ta.Cont
         context = self.context
 
     if self.label == 'function':
-        return self.boolean_value(self[0].select(context))
+        return self.boolean_value(self[0].select(copy(context)))
 
     # xs:boolean constructor
     arg = self.data_value(self.get_argument(context))
